@@ -188,9 +188,13 @@ def c17(ctx):
 @prop('C13', level='other',
       explanation=('C1 restricted to the row/column primitives and the column-permutation kernel: row swap, row add from offset, row clear '
                    'from offset, combine kernels, bit-range primitives, apply_p_right strips - no store can touch bits past the last column '
-                   '(kernel contracts re-check the counter initialisation and the final masked/revert store).'),
-      not_decided='the swap arithmetic itself and the permutation order (F4/B1 rules are added separately)')
+                   '(kernel contracts re-check the counter initialisation and the final masked/revert store). B1 on the 64-case column gather. '
+                   'F4: direction and range of the four permutation applications. C7: interval analysis (branch refinement) of every shift '
+                   'count in the bit-range primitives under coordinates >= 0, 1 <= n <= 64. W1: no 32-bit shift widened to a word. W2/W2b: a '
+                   '(word index, bit) pair is built from one value of the column variable.'),
+      not_decided='the swap arithmetic itself (which bits move where)')
 def c13(ctx):
+    from . import coords as CO, intervals as IV
     from . import masks as M, families as B, contracts as CT
     out = []
     for cfg in _configs(ctx, extra=[dict(frontend.host_config(), sse2=0)]):
@@ -200,6 +204,9 @@ def c13(ctx):
         ctx.add(out, lab, B.rule_B1, ctx, prog, lab, only_funcs={'mzd_write_col_to_rows_blockd', 'mzd_col_swap_in_rows'})
         ctx.add(out, lab, CT.rule_F4, ctx, prog, lab)
         ctx.add(out, lab, M.rule_W1, ctx, prog, lab)
+        ctx.add(out, lab, CO.rule_W2, ctx, prog, lab)
+        ctx.add(out, lab, CO.rule_W2b, ctx, prog, lab)
+        ctx.add(out, lab, IV.rule_C7, ctx, prog, lab)
     return out
 
 
@@ -313,9 +320,12 @@ def c02(ctx):
 @prop('C03', level='other',
       explanation=('Structural clauses of PLE/PLUQ: B1 over both pseudo-templates (all seven instantiations of _mzd_process_rows_ple_N and '
                    '_mzd_ple_a11_N: affine table indices, prefix-sum chains sh[j] = k[0]+..+k[j-1]), the ntables dispatch and _kk_setup; '
-                   'F1 (P, Q lengths validated before work); E1 on the PLE functions (ple_table_t, windows, permutation windows and their kinds).'),
+                   'F1 (P, Q lengths validated before work); E1 on the PLE functions (ple_table_t, windows, permutation windows and their kinds); '
+                   'B2c word-count guards; F4/F8 permutation loops; F6/F7 dimension and position typing of the Schur-complement step; W2/W2b '
+                   '(word index and bit mask of a pivot test come from the same value of the column variable).'),
       not_decided='P*L*U*Q = A, rank profile, zero storage outside L and U (value level)')
 def c03(ctx):
+    from . import coords as CO
     from . import families as B, contracts as CT, resources as R
     out = []
     for cfg in _configs(ctx, extra=[dict(frontend.host_config(), sse2=0)]):
@@ -329,6 +339,8 @@ def c03(ctx):
         ctx.add(out, lab, CT.rule_F7, ctx, prog, lab, only_funcs=PLE_FUNCS)
         ctx.add(out, lab, CT.rule_F1, ctx, prog, lab)
         ctx.add(out, lab, R.rule_E1, ctx, prog, lab, only_funcs=PLE_FUNCS | {'ple_table_init', 'ple_table_free'}, rule='E1-ple')
+        ctx.add(out, lab, CO.rule_W2, ctx, prog, lab)
+        ctx.add(out, lab, CO.rule_W2b, ctx, prog, lab)
     return out
 
 
@@ -381,7 +393,7 @@ def c18(ctx):
       explanation=('Finite, exhaustive clauses: C8 - 2209 C++17 static_assert witnesses (the macro text is taken from the repository header at '
                    'compile time) for LEFT/RIGHT/MIDDLE bit masks over every length and offset, with a liveness control that must fail to '
                    'compile; B7 - each butterfly stage of m4ri_swap_bits swaps adjacent s-bit groups with the matching period mask; B1 - the '
-                   '16-member spread/shrink families are affine in their index.'),
+                   '16-member spread/shrink families are affine in their index; W1 - no shift is evaluated in 32 bits and then widened to a word.'),
       not_decided='m4ri_gray_code, m4ri_build_code, m4ri_parity64, m4ri_lesser_LSB: data-dependent code whose correctness is a statement about evaluated values')
 def c19(ctx):
     from . import witness as W, families as B, masks as M
@@ -465,8 +477,10 @@ def c14(ctx):
                    'loop variable (row r of M, T[z]/L[z]), using the callee write summaries; H2 - the four sections of both multi-core front ends '
                    'write pairwise disjoint quadrant windows, and each product multiplies blocks at matching positions (C_ij += A_ik * B_kj); A1 - '
                    'operands shared between sections are read-only; G3 - the block cache is only touched inside omp critical(mmc); G4 - configure '
-                   'switches the header cache off with OpenMP.'),
-      not_decided='bit-equality with the sequential build follows for race-free regions from per-iteration determinism, which is argued, not checked')
+                   'switches the header cache off with OpenMP. H3 - no private/firstprivate variable is read in an iteration before it is written '
+                   'in that iteration (definite assignment), so no value travels between the iterations a thread happens to run; H4 - hand-rolled '
+                   'work sharing strides by omp_get_num_threads() of the executing team; positive controls for H3/H4 on every run.'),
+      not_decided='bit-equality with the sequential build follows for race-free, iteration-independent regions from determinism of each iteration, which is argued, not checked')
 def c16(ctx):
     from . import omp as H, const_rules as CR, globals_engine as G, contracts as CT
     out = []
@@ -482,10 +496,42 @@ def c16(ctx):
         ctx.add(out, lab, H.rule_H4, ctx, prog, lab)
         ctx.add(out, lab, CT.rule_F6, ctx, prog, lab, only_funcs={'_mzd_mul_mp4', '_mzd_addmul_mp4', 'mzd_mul_mp', 'mzd_addmul_mp'})
         ctx.add(out, lab, CT.rule_F7, ctx, prog, lab, only_funcs={'_mzd_mul_mp4', '_mzd_addmul_mp4', 'mzd_mul_mp', 'mzd_addmul_mp'})
-        ctx.add(out, lab, H.rule_G3, ctx, prog, lab)
+        if cfg['mmc']:      # without the block cache there is nothing to guard
+            ctx.add(out, lab, H.rule_G3, ctx, prog, lab)
         ctx.add(out, lab, CR.rule_A1, ctx, prog, lab)
     _selftest(ctx, out, ['H3', 'H4'], cfg=frontend.openmp_configs()[0])
     ctx.add(out, 'configure.ac', G.rule_G4, ctx)
+    return out
+
+
+INV_FUNCS = {'mzd_inv_m4ri', 'mzd_invert_naive', 'mzd_trtri_upper', 'mzd_trtri_upper_russian', 'mzd_make_table_trtri', '_mzd_trtri_upper_submatrix'}
+
+
+@prop('C05', level='other',
+      explanation=('Structural clauses of the inversion routines. A1x: the input A of mzd_inv_m4ri and A, I of mzd_invert_naive have no write '
+                   'effect (through casts and callees, whatever the declared qualifier). R1 - augmented-matrix recipe: A is the left block, the '
+                   'identity a disjoint right block inside the augmented matrix, a *full* echelon form of the whole is computed, the result is '
+                   'read from exactly the identity block, and build dominates reduce dominates extract on every path to a non-NULL return. '
+                   'R2 - recursive triangular inversion: the two diagonal blocks tile the diagonal, the off-diagonal block is rows(U00) x cols(U11) '
+                   'and is solved with both blocks before either is inverted in place. B8 - in the Four-Russians triangular inversion table j is '
+                   'built from the diagonal block at r + j*k into U[j]/T[j] (affine periodic call groups). B1/B2 - the Duff device of the table '
+                   'builder. F6/F7 - dimension and position typing of the calls in mzd_trtri_upper. E1 - every temporary is released once on all paths.'),
+      not_decided='A*B = B*A = I, equality of the naive and the Four-Russians result, that the triangular inverse is the inverse (value level)')
+def c05(ctx):
+    from . import inverse as RI, const_rules as CR, families as B, contracts as CT, resources as R
+    out = []
+    for cfg in _configs(ctx):
+        prog = _prog(ctx, cfg)
+        lab = _label(cfg)
+        ctx.add(out, lab, CR.rule_A1x, ctx, prog, lab, [('mzd_inv_m4ri', 1), ('mzd_invert_naive', 1), ('mzd_invert_naive', 2)])
+        ctx.add(out, lab, RI.rule_R1, ctx, prog, lab)
+        ctx.add(out, lab, RI.rule_R2, ctx, prog, lab)
+        ctx.add(out, lab, B.rule_B8, ctx, prog, lab)
+        ctx.add(out, lab, B.rule_B1, ctx, prog, lab, only_funcs=INV_FUNCS)
+        ctx.add(out, lab, B.rule_B2, ctx, prog, lab, only_funcs=INV_FUNCS, rule='B2-inv')
+        ctx.add(out, lab, CT.rule_F6, ctx, prog, lab, only_funcs=INV_FUNCS)
+        ctx.add(out, lab, CT.rule_F7, ctx, prog, lab, only_funcs=INV_FUNCS)
+        ctx.add(out, lab, R.rule_E1, ctx, prog, lab, only_funcs=INV_FUNCS, rule='E1-inv')
     return out
 
 
@@ -517,9 +563,11 @@ def c06(ctx):
       explanation=('Structural clauses of the kernel routine: F5 (the only NULL return is guarded by rank == ncols with the rank taken from mzd_pluq; '
                    'the basis is created as ncols x (ncols - rank); the identity block is written at (rank + i, i) over all its columns); F6/F7 '
                    '(the TRSM on the kernel block and the permutation application are dimension- and position-consistent); E1 (six handles released '
-                   'on both exits).'),
+                   'on both exits). F5 is decided on the CFG (the rank == ncols branch is the only way round the creation of the result), so '
+                   'goto-cleanup and early-return layouts are equivalent. W2/W2b on the factorisation the routine relies on.'),
       not_decided='A*K = 0, independence of the columns, rank correctness (value level)')
 def c07(ctx):
+    from . import coords as CO
     from . import contracts as CT, resources as R
     out = []
     for cfg in _configs(ctx):
@@ -529,4 +577,6 @@ def c07(ctx):
         ctx.add(out, lab, CT.rule_F6, ctx, prog, lab, only_funcs={'mzd_kernel_left_pluq'})
         ctx.add(out, lab, CT.rule_F7, ctx, prog, lab, only_funcs={'mzd_kernel_left_pluq'})
         ctx.add(out, lab, R.rule_E1, ctx, prog, lab, only_funcs={'mzd_kernel_left_pluq'}, rule='E1-kernel')
+        ctx.add(out, lab, CO.rule_W2, ctx, prog, lab)
+        ctx.add(out, lab, CO.rule_W2b, ctx, prog, lab)
     return out
